@@ -11,10 +11,10 @@ package compose_test
 //        exactly when an interrupt error is returned and an id was supplied.
 
 import (
-	"os"
 	"context"
 	"encoding/json"
 	"fmt"
+	"os"
 	"sort"
 	"strings"
 	"testing"
@@ -227,8 +227,8 @@ func contains(xs []string, x string) bool {
 
 type histFacts struct {
 	interrupts, nestedInterrupts, rerunAborts, streamCalls, freshResumes int
-	beforeAtStart, beforeHonoured, afterHonoured                        bool
-	loopThroughInterrupt                                                bool
+	beforeAtStart, beforeHonoured, afterHonoured                         bool
+	loopThroughInterrupt                                                 bool
 }
 
 // checkHistory runs the history once and evaluates the oracles of C05 (which == "C05") or C06.
